@@ -51,7 +51,12 @@ def _run_task(task):
 
     limit = int(float(os.environ.get("VERIF_TASK_TIMEOUT", "600" if tier == "quick" else "3600")))
 
+    where = []
+
     def _alarm(signum, frame):
+        import traceback
+
+        where[:] = [f"{os.path.basename(fs.filename)}:{fs.lineno}:{fs.name}" for fs in traceback.extract_stack(frame) if "/z3/" not in fs.filename][-6:]
         raise _UnitTimeout()
 
     signal.signal(signal.SIGALRM, _alarm)
@@ -59,7 +64,7 @@ def _run_task(task):
     try:
         return _run_task_inner(task)
     except _UnitTimeout:
-        return _error_result(task, f"checker-error: verification unit did not finish within {limit}s (undecided, not a violation)")
+        return _error_result(task, f"checker-error: verification unit did not finish within {limit}s (undecided, not a violation); interrupted at {' > '.join(where)}")
     finally:
         signal.alarm(0)
 
